@@ -93,5 +93,50 @@ func TestVerifRequestRoundTrip(t *testing.T) {
 			}
 		}
 	}
+	// empty strings in form members (a separate, small enumeration: see known findings)
+	type rtForm struct {
+		Q   string `form:"q"`
+		Tag string `form:"tag,default=t"`
+		Opt string `form:"opt,optional"`
+	}
+	for _, q := range []string{"", "x"} {
+		for _, tag := range []string{"", "t", "u"} {
+			for _, opt := range []string{"", "o"} {
+				in := rtForm{Q: q, Tag: tag, Opt: opt}
+				req, err := buildRequest(context.Background(), http.MethodGet, "http://localhost/f", in)
+				if err != nil {
+					c.Violation(fmt.Sprintf("%+v", in), "build", err.Error())
+					continue
+				}
+				var got rtForm
+				var perr error
+				var pan any
+				func() {
+					defer func() { pan = recover() }()
+					sreq := httptest.NewRequest(req.Method, req.URL.String(), nil)
+					sreq.Header = req.Header.Clone()
+					perr = httpx.Parse(sreq, &got)
+				}()
+				c.Eval(fmt.Sprintf("form q=%q tag=%q opt=%q", q, tag, opt), func() any {
+					return map[string]any{"sent": fmt.Sprintf("%+v", in), "url": req.URL.String(), "got": fmt.Sprintf("%+v", got), "err": fmt.Sprint(perr)}
+				})
+				inS := fmt.Sprintf("%+v", in)
+				// the class tells an empty string that did not survive from any other difference
+				emptyInvolved := (q == "" && (perr != nil || got.Q != q)) || (tag == "" && got.Tag != tag && got.Q == q && got.Opt == opt)
+				class := "form round trip differs"
+				if emptyInvolved && (perr != nil || (got.Q == q || q == "") && (got.Tag == tag || tag == "") && got.Opt == opt) {
+					class = "empty string in a form member does not arrive"
+				}
+				switch {
+				case pan != nil:
+					c.Violation(inS, "panic", fmt.Sprint(pan))
+				case perr != nil:
+					c.Violation(inS, class, fmt.Sprintf("sent %+v (url %s): the server-side parser fails with %v", in, req.URL.String(), perr))
+				case in != got:
+					c.Violation(inS, class, fmt.Sprintf("sent %+v, parsed %+v (url %s)", in, got, req.URL.String()))
+				}
+			}
+		}
+	}
 	c.Done()
 }
